@@ -179,6 +179,10 @@ type Req struct {
 	// UpperCT: the media type of the form's Content-Type header is spelled with capitals
 	// ("Application/X-WWW-Form-Urlencoded", "Multipart/Form-Data; boundary=..."): media types are case-insensitive.
 	UpperCT bool `json:"upper_ct,omitempty"`
+	// CutTail: that many bytes are missing at the end of a multipart body (the connection broke inside the closing
+	// delimiter). The request may be refused as a whole; if it is accepted, the handler receives what the client sent
+	// in the parts that arrived - never defaults in their place. (r6)
+	CutTail int `json:"cut_tail,omitempty"`
 }
 
 type Case struct {
@@ -187,6 +191,10 @@ type Case struct {
 	// LateFormat: the application's own string format "x-color" is added to the format registry after the binder /
 	// the handler has been built (it is registered in either case before the first request arrives).
 	LateFormat bool `json:"late_format,omitempty"`
+	// ReuseTarget (binder-direct): the struct the requests are bound into is the same object for every request of the case
+	// (a pooled parameter struct): what a request leaves absent is the declared default or zero, not what the previous
+	// request sent. (r6)
+	ReuseTarget bool `json:"reuse_target,omitempty"`
 }
 
 // hexColor is the Go type of the application-defined string format "x-color": '#' and six hex digits, kept in lower case.
